@@ -33,7 +33,7 @@ func init() {
 		Rules: []core.Rule{
 			{ID: "C14-R1", Title: "who may write the id fields", Decides: "ids are assigned only by the numbering code", Floor: 4, Run: c14r1},
 			{ID: "C14-R2", Title: "assign-then-increment on every loop path, unconditionally", Decides: "instance ids are unique, non-zero and depend only on construction order", Floor: 3, Run: c14r2},
-			{ID: "C14-R3", Title: "non-zero counter start; duplicate test after assignment dominates insertion", Decides: "accessory ids are unique and non-zero", Floor: 5, Run: func(c *core.Ctx) { c14r3(c); characteristicsAddedOnce(c) }},
+			{ID: "C14-R3", Title: "non-zero counter start; duplicate test after assignment dominates insertion", Decides: "accessory ids are unique and non-zero", Floor: 5, Run: func(c *core.Ctx) { c14r3(c); characteristicsAddedOnce(c); polarityEverywhere(c, "C14") }},
 			{ID: "C14-R4", Title: "determinism of id assignment", Decides: "rebuilding the same accessories yields the same ids", Floor: 1, Run: c14r4},
 			{ID: "C14-R5", Title: "attribute database member names", Decides: "well-formed HAP JSON", Floor: 4, Run: c14r5},
 			{ID: "C14-R6", Title: "index and list change together; linked ids are computed at encoding time", Decides: "accessory ids stay unique; linked ids refer to existing services", Floor: 2, Run: func(c *core.Ctx) { c14r6(c); returnsUndecorated(c, "C14") }},
